@@ -43,17 +43,31 @@ use std::{
     fmt::Display,
     hash::Hash,
     ops::Deref,
-    sync::{Arc, Weak},
+    sync::{Arc, PoisonError, Weak},
 };
 
 #[cfg(not(gdsl_verif))]
-use std::sync::RwLock;
+use std::sync::{Mutex, MutexGuard, RwLock};
 #[cfg(gdsl_verif)]
 use crate::verif::RwLock;
 
 enum Transposition {
     Outbound,
     Inbound,
+}
+
+/// The calls that update the adjacency lists of more than one node
+/// (`connect`, `try_connect`, `disconnect`, `isolate`) take this lock for their
+/// whole duration. Each of them locks the nodes involved one after the other,
+/// so without it two threads could interleave between those steps: an edge
+/// ended up listed at one endpoint only, parallel edges were listed in
+/// different orders at their two endpoints, `try_connect` succeeded twice and
+/// `isolate` panicked on an entry another thread had just removed. Readers
+/// (queries, iterators, searches) never take it.
+static MUTATION: Mutex<()> = Mutex::new(());
+
+fn mutation_guard() -> MutexGuard<'static, ()> {
+    MUTATION.lock().unwrap_or_else(PoisonError::into_inner)
 }
 
 /// An edge between nodes is a tuple struct `Edge(u, v, e)` where `u` is the
@@ -244,6 +258,12 @@ where
     /// assert!(n1.is_connected(n2.key()));
     /// ```
     pub fn connect(&self, other: &Self, value: E) {
+        let _mutation = mutation_guard();
+        self.connect_locked(other, value);
+    }
+
+    /// `connect` for callers that already hold the mutation lock.
+    fn connect_locked(&self, other: &Self, value: E) {
         self.inner
             .2
             .write()
@@ -282,10 +302,11 @@ where
     /// }
     /// ```
     pub fn try_connect(&self, other: &Self, value: E) -> Result<(), Error> {
+        let _mutation = mutation_guard();
         if self.is_connected(other.key()) {
             Err(Error::EdgeAlreadyExists)
         } else {
-            self.connect(other, value);
+            self.connect_locked(other, value);
             Ok(())
         }
     }
@@ -313,6 +334,7 @@ where
     /// assert!(!n1.is_connected(n2.key()));
     /// ```
     pub fn disconnect(&self, other: &K) -> Result<E, Error> {
+        let _mutation = mutation_guard();
         match self.find_outbound(other) {
             Some(other) => {
                 // Release the lock of `self` before locking `other`: for a
@@ -360,6 +382,7 @@ where
     /// assert!(n1.is_orphan());
     /// ```
     pub fn isolate(&self) {
+        let _mutation = mutation_guard();
         for Edge(_, v, _) in self.iter_out() {
             v.inner
                 .2
